@@ -51,9 +51,6 @@ pub fn f4_non_advancing_loop(b: &[u8]) -> usize {
     let mut it = b.iter().peekable();
     while it.peek().is_some() {
         n = n.wrapping_add(1);
-        if n > 10 {
-            break;
-        }
     }
     n
 }
